@@ -26,6 +26,7 @@ package document
 //@ props C18, C17
 //@ modifies nothing
 //@ ensures deepcopy(result, source)
+//@ ensures result == nil || fresh(result)
 
 //@ func (*TemplateEngine).cloneTableProperties
 //@ props C18, C17
@@ -81,6 +82,7 @@ package document
 //@ requires source == nil || refsNonNil(source)
 //@ modifies nothing
 //@ ensures deepcopy(result, source)
+//@ ensures source != nil ==> fresh(result) && !isElem(result)
 //@ loop 1
 //@   invariant 0 <= #i && #i <= len(source.HeaderReferences) && unchangedHeap() && source != nil
 //@   invariant sectPr != nil && fresh(sectPr) && len(sectPr.HeaderReferences) == len(source.HeaderReferences) && (len(sectPr.HeaderReferences) == 0 || arr(sectPr.HeaderReferences) >= old(allocBound()))
@@ -102,12 +104,14 @@ package document
 //@ requires source != nil
 //@ modifies nothing
 //@ ensures deepcopy(result, source)
+//@ ensures result.Properties == nil || fresh(result.Properties)
 
 //@ func (*TemplateEngine).cloneParagraph
 //@ props C18, C17
 //@ requires source != nil
 //@ modifies nothing
 //@ ensures deepcopy(result, source)
+//@ ensures fresh(result) && !isElem(result) && freshArr(result.Runs)
 //@ loop 1
 //@   invariant 0 <= #i && #i <= len(source.Runs) && unchangedHeap()
 //@   invariant newPara != nil && fresh(newPara) && deepcopy(newPara.Properties, source.Properties) && len(newPara.Runs) == len(source.Runs) && (len(newPara.Runs) == 0 || arr(newPara.Runs) >= old(allocBound()))
@@ -155,6 +159,7 @@ package document
 //@ requires source != nil
 //@ modifies nothing
 //@ ensures deepcopy(result, source)
+//@ ensures fresh(result) && !isElem(result)
 //@ ensures closedAbove(old(allocBound())) && above(result.Cells, old(allocBound())) && tagged(result.Cells, "TableCell")
 //@ loop 1
 //@   invariant 0 <= #i && #i <= len(source.Cells) && unchangedHeap()
@@ -169,6 +174,7 @@ package document
 //@ requires source != nil
 //@ modifies nothing
 //@ ensures deepcopy(result, source)
+//@ ensures fresh(result) && !isElem(result)
 //@ ensures closedAbove(old(allocBound())) && above(result.Rows, old(allocBound())) && tagged(result.Rows, "TableRow")
 //@ loop 1
 //@   invariant 0 <= #i && #i <= len(source.Rows) && unchangedHeap()
